@@ -164,6 +164,10 @@ func init() {
 	externals["(runtime.errorString).Error"] = func(fr *frame, args []value) value {
 		return args[0].(string)
 	}
+	// the engine runs goroutines inline / sequentialised: locks are no-ops
+	for _, n := range []string{"(*sync.Mutex).Lock", "(*sync.Mutex).Unlock", "(*sync.RWMutex).Lock", "(*sync.RWMutex).Unlock", "(*sync.RWMutex).RLock", "(*sync.RWMutex).RUnlock", "(*sync.WaitGroup).Add", "(*sync.WaitGroup).Done", "(*sync.WaitGroup).Wait"} {
+		externals[n] = func(fr *frame, args []value) value { return nil }
+	}
 	externals["(runtime.errorString).RuntimeError"] = func(fr *frame, args []value) value { return nil }
 	externals["(*runtime.errorString).Error"] = func(fr *frame, args []value) value {
 		return (*args[0].(*value)).(string)
